@@ -11,7 +11,8 @@ git -C /repo worktree add -q --detach "$wt" $base || exit 2
 ( cd "$wt" && git apply "$patch" ) || { echo "patch does not apply"; git -C /repo worktree remove --force "$wt"; exit 2; }
 ev=$(mktemp -d /tmp/seedev.XXXXXX)
 for p in "$@"; do
-  cd /verif && VERIF_REPO="$wt" VERIF_EVIDENCE_DIR="$ev" VERIF_REPLAY_DIR="$ev" ./check "$p" ${TIER:+--tier $TIER} > /tmp/seedtest.$p.log 2>&1; rc=$?
-  echo "== $p rc=$rc $(grep -c '^VIOLATION' /tmp/seedtest.$p.log) violation lines"; grep -A1 '^VIOLATION' /tmp/seedtest.$p.log | head -6; grep '^BROKEN' /tmp/seedtest.$p.log | head -3
+  log="$ev/seedtest.$p.log"
+  cd ${VERIF_HOME:-/verif} && VERIF_REPO="$wt" VERIF_EVIDENCE_DIR="$ev" VERIF_REPLAY_DIR="$ev" ./check "$p" ${TIER:+--tier $TIER} > "$log" 2>&1; rc=$?
+  echo "== $p rc=$rc $(grep -c '^VIOLATION' "$log") violation lines"; grep -A1 '^VIOLATION' "$log" | head -6; grep '^BROKEN' "$log" | head -3
 done
 git -C /repo worktree remove --force "$wt"; rm -rf "$ev"
